@@ -24,6 +24,7 @@ var registry = map[string]entry{
 	"C04": {"exploration", props.C04},
 	"C05": {"exploration", props.C05},
 	"C06": {"exploration", props.C06},
+	"C12": {"exploration", props.C12},
 	"C27": {"exploration", props.C27},
 	"C28": {"exploration", props.C28},
 	"C20": {"exploration", comp.C20},
